@@ -23,9 +23,9 @@ def fail(**kw):
 
 count = dict(ip=0, host=0, mac=0, password=0, keyword=0, pattern=0)
 PRE = ["", " ", "=", "(", "[", "\"", ":", "from ", "x=", "\t"]
-SUF = ["", " ", ".", ",", ":", ")", "]", "\"", "/24", ":22", ". next", ";"]
+SUF = ["", " ", ".", ",", ":", ")", "]", "\"", "/24", ":22", ". next", ";", "_x", "-x", "/x"]
 if level < 2:
-    PRE, SUF = PRE[:7], SUF[:9]
+    PRE, SUF = PRE[:7], SUF[:9] + SUF[12:]
 
 # ---------------------------------------------------------------- IPv4
 ADDRS = ["192.168.122.45", "8.8.4.4", "10.0.0.255", "172.16.8.9", "203.0.113.77"][:3 if level < 2 else 5]
@@ -66,8 +66,8 @@ if "127.0.0.1" not in out:
 
 # ---------------------------------------------------------------- host names
 for tok in (FQDN, "host1", "db2.example.org"):
-    for p, s in itertools.product(PRE, SUF[:8]):
-        if s.startswith("/") or s.startswith(":22"):
+    for p, s in itertools.product(PRE, SUF[:8] + ["_access.log", "-old", "/path"]):
+        if s.startswith("/2") or s.startswith(":22"):
             continue
         line = "msg %s%s%s end" % (p, tok, s)
         cl = fresh()
@@ -110,7 +110,10 @@ for tok in ("sekrit", "Top.Secret"):
         if tok in out:
             fail(violation="keyword survives", line=line, out=out, keyword=tok)
 for rm, bad, good in (({"patterns": ["forbidden", "a.b"]}, ["x forbidden y", "forbidden", "1 a.b 2"], ["allowed", "a-b"]),
-                      ({"patterns": {"regex": ["for+bid", "^secret[0-9]+$"]}}, ["it is forrrbid den", "secret123"], ["fobid", "secret12x"])):
+                      ({"patterns": {"regex": ["for+bid", "^secret[0-9]+$"]}}, ["it is forrrbid den", "secret123"], ["fobid", "secret12x"]),
+                      # groups and a numeric back-reference in a later pattern; POSIX classes
+                      ({"patterns": {"regex": ["api[_-]?(key|token)", "([\"'])s3cr3t\\1", "pin[[:space:]]*=[[:space:]]*[[:digit:]]{4}"]}},
+                       ["my api_key here", "auth = \"s3cr3t\"", "auth2 = 's3cr3t'", "pin = 7777"], ["auth = \"s3cr3t'", "pin = 77", "apiless"])):
     pc = Cleaner(InsightsConfig(), rm, FQDN)
     out = pc.clean_content(list(bad) + list(good))
     count["pattern"] += 1
